@@ -205,14 +205,14 @@ def run_shard(args):
                 evaluate(mod, case, ctx, findings, reported)
             except Violation:
                 record_failure()
-            if len(failures) >= 3 or ctx.harness_error:
+            if len(failures) >= (1 if tier == "quick" else 3) or ctx.harness_error:
                 break
 
     # 2. random phase
     n = budget.get("examples", 0)
     if n and not ctx.harness_error and hasattr(mod, "strategy"):
         for attempt in range(3):
-            if len(failures) >= 2:
+            if len(failures) >= (1 if tier == "quick" else 2):   # one shrunk bucket per shard in the quick tier
                 break
 
             @hseed(seed * 1000 + shard)
